@@ -12,7 +12,6 @@ use crate::jws::JwsHeader;
 use crate::jwu::create_message;
 use crate::jwu::decode_b64;
 use crate::jwu::decode_b64_json;
-use crate::jwu::filter_non_empty_bytes;
 use crate::jwu::parse_utf8;
 use crate::jwu::validate_jws_headers;
 
@@ -184,22 +183,27 @@ impl<'a> JwsValidationItem<'a> {
 #[serde(deny_unknown_fields)]
 struct JwsSignature<'a> {
   header: Option<JwsHeader>,
-  protected: Option<&'a str>,
-  signature: &'a str,
+  #[serde(borrow)]
+  protected: Option<Cow<'a, str>>,
+  #[serde(borrow)]
+  signature: Cow<'a, str>,
 }
 
 #[derive(serde::Deserialize)]
 #[serde(deny_unknown_fields)]
 struct General<'a> {
-  payload: Option<&'a str>,
+  #[serde(borrow)]
+  payload: Option<Cow<'a, str>>,
+  #[serde(borrow)]
   signatures: Vec<JwsSignature<'a>>,
 }
 
 #[derive(serde::Deserialize)]
 #[serde(deny_unknown_fields)]
 struct Flatten<'a> {
-  payload: Option<&'a str>,
-  #[serde(flatten)]
+  #[serde(borrow)]
+  payload: Option<Cow<'a, str>>,
+  #[serde(flatten, borrow)]
   signature: JwsSignature<'a>,
 }
 
@@ -239,13 +243,13 @@ impl Decoder {
 
     let signature: JwsSignature<'_> = JwsSignature {
       header: None,
-      protected: Some(parse_utf8(protected)?),
-      signature: parse_utf8(signature)?,
+      protected: Some(Cow::Borrowed(parse_utf8(protected)?)),
+      signature: Cow::Borrowed(parse_utf8(signature)?),
     };
 
-    let payload = Self::expand_payload(detached_payload, Some(payload))?;
+    let payload = Self::expand_payload(detached_payload, Some(Cow::Borrowed(payload)))?;
 
-    self.decode_signature(payload, signature)
+    self.decode_signature(&payload, signature)
   }
 
   /// Decode a JWS encoded with the [flattened JWS JSON serialization format](https://www.rfc-editor.org/rfc/rfc7515#section-7.2.2).
@@ -260,14 +264,14 @@ impl Decoder {
     detached_payload: Option<&'b [u8]>,
   ) -> Result<JwsValidationItem<'b>> {
     let data: Flatten<'_> = serde_json::from_slice(jws_bytes).map_err(Error::InvalidJson)?;
-    let payload = Self::expand_payload(detached_payload, data.payload)?;
+    let payload = Self::expand_payload(detached_payload, data.payload.map(cow_str_into_bytes))?;
     let signature = data.signature;
-    self.decode_signature(payload, signature)
+    self.decode_signature(&payload, signature)
   }
 
   fn decode_signature<'a, 'b>(
     &self,
-    payload: &'b [u8],
+    payload: &Cow<'b, [u8]>,
     jws_signature: JwsSignature<'a>,
   ) -> Result<JwsValidationItem<'b>> {
     let JwsSignature {
@@ -276,17 +280,17 @@ impl Decoder {
       signature,
     } = jws_signature;
 
-    let protected_header: Option<JwsHeader> = protected.map(decode_b64_json).transpose()?;
+    let protected_header: Option<JwsHeader> = protected.as_deref().map(decode_b64_json).transpose()?;
     validate_jws_headers(protected_header.as_ref(), unprotected_header.as_ref())?;
 
-    let protected_bytes: &[u8] = protected.map(str::as_bytes).unwrap_or_default();
+    let protected_bytes: &[u8] = protected.as_deref().map(str::as_bytes).unwrap_or_default();
     let signing_input: Box<[u8]> = create_message(protected_bytes, payload).into();
-    let decoded_signature: Box<[u8]> = decode_b64(signature)?.into();
+    let decoded_signature: Box<[u8]> = decode_b64(signature.as_ref())?.into();
 
     let claims: Cow<'b, [u8]> = if protected_header.as_ref().and_then(|value| value.b64()).unwrap_or(true) {
       Cow::Owned(decode_b64(payload)?)
     } else {
-      Cow::Borrowed(payload)
+      payload.clone()
     };
 
     Ok(JwsValidationItem {
@@ -299,10 +303,10 @@ impl Decoder {
 
   fn expand_payload<'b>(
     detached_payload: Option<&'b [u8]>,
-    parsed_payload: Option<&'b (impl AsRef<[u8]> + ?Sized)>,
-  ) -> Result<&'b [u8]> {
-    match (detached_payload, filter_non_empty_bytes(parsed_payload)) {
-      (Some(payload), None) => Ok(payload),
+    parsed_payload: Option<Cow<'b, [u8]>>,
+  ) -> Result<Cow<'b, [u8]>> {
+    match (detached_payload, parsed_payload.filter(|payload| !payload.is_empty())) {
+      (Some(payload), None) => Ok(Cow::Borrowed(payload)),
       (None, Some(payload)) => Ok(payload),
       (Some(_), Some(_)) => Err(Error::InvalidContent("multiple payloads")),
       (None, None) => Err(Error::InvalidContent("missing payload")),
@@ -319,7 +323,15 @@ impl Decoder {
 pub struct JwsValidationIter<'decoder, 'payload, 'signatures> {
   decoder: &'decoder Decoder,
   signatures: std::vec::IntoIter<JwsSignature<'signatures>>,
-  payload: &'payload [u8],
+  payload: Cow<'payload, [u8]>,
+}
+
+/// A JSON string is only borrowed from the input when it contains no escape sequences.
+fn cow_str_into_bytes(value: Cow<'_, str>) -> Cow<'_, [u8]> {
+  match value {
+    Cow::Borrowed(value) => Cow::Borrowed(value.as_bytes()),
+    Cow::Owned(value) => Cow::Owned(value.into_bytes()),
+  }
 }
 
 impl<'payload> Iterator for JwsValidationIter<'_, 'payload, '_> {
@@ -329,7 +341,7 @@ impl<'payload> Iterator for JwsValidationIter<'_, 'payload, '_> {
     self
       .signatures
       .next()
-      .map(|signature| self.decoder.decode_signature(self.payload, signature))
+      .map(|signature| self.decoder.decode_signature(&self.payload, signature))
   }
 }
 
@@ -347,7 +359,7 @@ impl Decoder {
   ) -> Result<JwsValidationIter<'decoder, 'data, 'data>> {
     let data: General<'data> = serde_json::from_slice(jws_bytes).map_err(Error::InvalidJson)?;
 
-    let payload = Self::expand_payload(detached_payload, data.payload)?;
+    let payload = Self::expand_payload(detached_payload, data.payload.map(cow_str_into_bytes))?;
     let signatures = data.signatures;
 
     Ok(JwsValidationIter {
